@@ -6,9 +6,10 @@
    Primitive lexical validators are the parameter [prim : key -> value -> bool]
    (false = the validator raises NotValid); the ones that are plain lexical rules
    (boolean, string kinds, integer kinds, name tokens, language, domain name) are
-   defined in Gallina below, the rest (dateTime, duration, base64Binary, anyURI,
-   IP address) come from a sample table.  Definitions only. *)
-From PV Require Import Lib.Base Model.Schema.
+   defined in Gallina below, duration is Model/Duration.v (time_util.parse_duration,
+   line by line), the rest (dateTime, base64Binary, anyURI, IP address) come from a
+   sample table.  Definitions only. *)
+From PV Require Import Lib.Base Model.Schema Model.Duration.
 Open Scope N_scope.
 
 Definition NOT_VALID : str := s2l "NotValid".
@@ -501,7 +502,7 @@ Definition prim_nmtokens (v : str) : bool := prim_string v && existsb (fun c => 
 Definition prim_language (v : str) : bool := re_match R_LANGUAGE v.
 Definition ALWAYS_TRUE : list str := [s2l "ID"; s2l "NCName"; s2l "QName"; s2l "anyType"].
 (* prim from a table of (key, value) -> verdict for the validators that are not
-   modelled (dateTime, duration, base64Binary, anyURI, ip address) *)
+   modelled (dateTime, base64Binary, anyURI, ip address) *)
 Fixpoint tab_lookup (k v : str) (tab : list (str * str * bool)) : option bool :=
   match tab with
   | [] => None
@@ -520,6 +521,7 @@ Definition prim_of (tab : list (str * str * bool)) (k v : str) : bool :=
            else if str_eqb k (s2l "NMTOKENS") then prim_nmtokens v
            else if str_eqb k (s2l "language") then prim_language v
            else if str_eqb k (s2l "pv:domainname") then prim_domain v
+           else if str_eqb k (s2l "duration") then prim_duration v       (* Model/Duration.v: time_util.parse_duration does not raise *)
            else match tab_lookup k v tab with
                 | Some b => b
                 | None => negb (str_eqb k (s2l "pv:ipaddress"))   (* arbitrary text is no address *)
